@@ -10,6 +10,7 @@ use crate::model::route::{LCfg, LEVELS, LEVEL_FILTERS};
 use proptest::prelude::*;
 use serde::{Deserialize, Serialize};
 use std::collections::BTreeMap;
+use std::sync::{Arc, Mutex};
 use std::time::Duration;
 
 #[derive(Serialize, Deserialize, Debug, Clone)]
@@ -87,12 +88,43 @@ fn yaml_for(cfg: &LCfg, dir: &std::path::Path) -> String {
 /// Builds the step's Config; optionally with a provisional root level that is corrected afterwards
 /// through the public `Config::root_mut().set_level()`.
 fn step_config(step: &Step, sink: &Sink, tag: &str) -> Result<log4rs::Config, String> {
+    step_config_with(step, sink, tag, None)
+}
+
+/// What an appender of the outgoing configuration logs while it is being dropped (appenders that log from their
+/// shutdown path - closing a connection, say - do this): target and level, set right before `set_config`.
+type DropPlan = Arc<Mutex<Option<(String, log::Level)>>>;
+
+#[derive(Debug)]
+struct LogsWhenDropped(DropPlan);
+
+impl log4rs::append::Append for LogsWhenDropped {
+    fn append(&self, _: &log::Record) -> anyhow::Result<()> {
+        Ok(())
+    }
+    fn flush(&self) {}
+}
+
+impl Drop for LogsWhenDropped {
+    fn drop(&mut self) {
+        let plan = self.0.lock().unwrap().take();
+        if let Some((t, l)) = plan {
+            log::log!(target: t.as_str(), l, "drop-probe");
+        }
+    }
+}
+
+fn step_config_with(step: &Step, sink: &Sink, tag: &str, plan: Option<&DropPlan>) -> Result<log4rs::Config, String> {
+    let extra = || match plan {
+        Some(p) => vec![log4rs::config::Appender::builder().build("zz-logs-when-dropped", Box::new(LogsWhenDropped(p.clone())))],
+        None => vec![],
+    };
     match step.via_root_mut {
-        None => build_config(&step.cfg, sink, tag),
+        None => build_config_extra(&step.cfg, sink, tag, &[], extra()),
         Some(provisional) => {
             let mut c = step.cfg.clone();
             c.root_level = provisional % 6;
-            let mut config = build_config(&c, sink, tag)?;
+            let mut config = build_config_extra(&c, sink, tag, &[], extra())?;
             config.root_mut().set_level(LEVEL_FILTERS[step.cfg.root_level as usize % 6]);
             Ok(config)
         }
@@ -106,6 +138,8 @@ pub fn child_check(h: &History, obs: &mut Obs) -> CaseResult {
     let mut handle: Option<log4rs::Handle> = None;
     let mut prev_max: Option<log::LevelFilter> = None;
     let mut moved_nonroot = false;
+    let plan: DropPlan = Arc::new(Mutex::new(None));
+    let mut during_swap = 0;
     let steps: &[Step] = if h.init == 2 { &h.steps[..1] } else { &h.steps[..] };
     for (si, step) in steps.iter().enumerate() {
         let cfg = &step.cfg;
@@ -113,11 +147,11 @@ pub fn child_check(h: &History, obs: &mut Obs) -> CaseResult {
         if si == 0 {
             match h.init {
                 0 => {
-                    let c = step_config(step, &sink, &tag).map_err(|e| Failure { sig: "C02:config".into(), msg: e })?;
+                    let c = step_config_with(step, &sink, &tag, Some(&plan)).map_err(|e| Failure { sig: "C02:config".into(), msg: e })?;
                     handle = Some(log4rs::init_config(c).map_err(|e| Failure { sig: "C02:init".into(), msg: e.to_string() })?);
                 }
                 1 => {
-                    let c = step_config(step, &sink, &tag).map_err(|e| Failure { sig: "C02:config".into(), msg: e })?;
+                    let c = step_config_with(step, &sink, &tag, Some(&plan)).map_err(|e| Failure { sig: "C02:config".into(), msg: e })?;
                     handle = Some(log4rs::config::init_config_with_err_handler(c, Box::new(|_e| {})).map_err(|e| Failure { sig: "C02:init".into(), msg: e.to_string() })?);
                 }
                 _ => {
@@ -127,8 +161,29 @@ pub fn child_check(h: &History, obs: &mut Obs) -> CaseResult {
                 }
             }
         } else {
-            let c = step_config(step, &sink, &tag).map_err(|e| Failure { sig: "C02:config".into(), msg: e })?;
+            let c = step_config_with(step, &sink, &tag, Some(&plan)).map_err(|e| Failure { sig: "C02:config".into(), msg: e })?;
+            // while the outgoing configuration is torn down inside set_config one of its appenders logs a record
+            // that the incoming configuration admits at its most verbose level
+            let probe: Option<(String, log::Level)> = cfg.max_level().to_level().and_then(|l| step.targets.iter().find(|t| cfg.effective(t) == cfg.effective_textual(t) && cfg.enabled(t, l)).map(|t| (t.clone(), l)));
+            *plan.lock().unwrap() = probe.clone();
+            sink.lock().unwrap().clear();
             handle.as_ref().unwrap().set_config(c);
+            let fired = plan.lock().unwrap().take().is_none();
+            if let (Some((t, l)), true) = (&probe, fired) {
+                let mut got: BTreeMap<String, usize> = BTreeMap::new();
+                for (a, m) in sink.lock().unwrap().drain(..) {
+                    if m == "drop-probe" {
+                        *got.entry(a).or_insert(0) += 1;
+                    }
+                }
+                let want: BTreeMap<String, usize> = cfg.route(t, *l).into_iter().map(|(a, n)| (format!("{}{}", tag, a), n)).collect();
+                ensure!(
+                    got == want,
+                    "C02:record-during-swap",
+                    "step {}: a record ({:?}, {:?}) logged through the macros while set_config was replacing the configuration reached {:?}; the incoming configuration admits it and routes it to {:?} (previous global maximum {:?})", si, t, l, got, want, prev_max
+                );
+                during_swap += 1;
+            }
         }
         // (1) the global maximum equals the most verbose configured level
         let want_max = cfg.max_level();
@@ -193,6 +248,7 @@ pub fn child_check(h: &History, obs: &mut Obs) -> CaseResult {
     obs.class(format!("init={}", ["init_config", "init_config_with_err_handler", "init_raw_config"][h.init as usize % 3]));
     obs.class(format!("steps={}", steps.len()));
     obs.class_if(moved_nonroot, "max-moved-with-nonroot-holder");
+    obs.class_if(during_swap > 0, "record-logged-while-set_config-swaps");
     obs.class_if(steps.iter().any(|s| s.via_root_mut.is_some()), "root-level-set-through-root_mut");
     Ok(())
 }
